@@ -638,6 +638,24 @@ def check_C13(ctx):
                 root2 = gen.mkcmd("app", decls=[d2], spec="[-x]" if isopt else "[ARG]", policy=0)
                 cases.append({"op": "run", "env": {"VE_T": t}, "version": None, "root": root2, "argv": [],
                               "_kind": kind, "_tok": t, "_route": "env", "_isopt": isopt})
+    # environment lists for the multi-valued kinds: every element must convert, whichever position the bad one has
+    for kind in ("ints", "floats", "strings"):
+        elem = ELEM[kind]
+        good = VALID[elem]
+        bad = [b for b in (INVALID[elem] or []) if b and "," not in b]
+        for isopt in (True, False):
+            for n in (2, 3, 4):
+                for mask in itertools.product([True, False], repeat=n):
+                    if not bad and not all(mask):
+                        continue
+                    for sep in (",", ", ", " ,"):
+                        t = sep.join(rng.choice(good) if g else rng.choice(bad) for g in mask)
+                        d2 = (gen.mkopt if isopt else gen.mkarg)(kind, "x val" if isopt else "ARG", sbu=True, env="VE_T",
+                                                                  **{"def": DEFAULTS[kind][0]})
+                        root2 = gen.mkcmd("app", decls=[d2], spec="[-x]" if isopt else "[ARG]", policy=0)
+                        cases.append({"op": "run", "env": {"VE_T": t}, "version": None, "root": root2, "argv": [],
+                                      "_kind": kind, "_tok": t, "_route": "env", "_isopt": isopt})
+                        toks.append(t)
     # several command-line tokens for one multi-valued variable: every one of them must convert
     seqs = []
     for kind in ("ints", "floats", "strings", "int", "float", "bool", "string"):
